@@ -41,6 +41,8 @@ const K = {
   tryCatch:  (i, J) => `function f${i}() { try { return ${J}; } catch (e) { return null; } }\n__out.k${i} = () => f${i}();`,
   labelled:  (i, J) => `let vl${i};\nlbl${i}: { vl${i} = ${J}; break lbl${i}; }\n__out.k${i} = () => vl${i};`,
   cond:      (i, J) => `const a${i} = (w) => (w ? ${J} : null);\n__out.k${i} = () => a${i}(true);`,
+  asyncArrow:(i, J) => `const aa${i} = async () => ${J};\n__out.k${i} = () => { const pr = aa${i}(); return typeof pr.then; };`,
+  asyncFn:   (i, J) => `async function af${i}() { return ${J}; }\n__out.k${i} = () => typeof af${i}().then;`,
   // depth-2 contexts
   fnInArrow: (i, J) => `const a${i} = () => { function inner() { return ${J}; } return inner(); };\n__out.k${i} = () => a${i}();`,
   arrowInFn: (i, J) => `function f${i}() { const inner = () => ${J}; return inner(); }\n__out.k${i} = () => f${i}();`,
@@ -74,20 +76,44 @@ const D = {
   selfAssign:  { tpl: (i) => `var sa${i} = x;\nsa${i} = <Comp>{sa${i}}</Comp>;\n__out.k${i} = () => sa${i};`, jsx: true },
   selfAssignLet: { tpl: (i) => `let sl${i} = x;\nsl${i} = <Comp>{sl${i}}</Comp>;\n__out.k${i} = () => sl${i};`, jsx: true },
   selfAssignFn:{ tpl: (i) => `function sf${i}(p) { p = <Comp>{p}</Comp>; return p; }\n__out.k${i} = () => sf${i}(x);`, jsx: true },
+  selfAssignTwice: { tpl: (i) => `function st${i}(p) { p = <Comp>{p}</Comp>; p = <B>{p}</B>; return p; }\n__out.k${i} = () => st${i}(x);`, jsx: true },
+  selfAssignTwiceMod: { tpl: (i) => `var sm${i} = x;\nsm${i} = <Comp>{sm${i}}</Comp>;\nsm${i} = <B>{sm${i}}</B>;\n__out.k${i} = () => sm${i};`, jsx: true },
   pragmaLike:  { tpl: (i) => `const pr${i} = <div class={c1}>{xx}</div>;\n__out.k${i} = () => pr${i};`, jsx: true },
 };
 
+// TypeScript-only items (modules rendered with these are parsed as .tsx and get the TS prelude)
+const T = {
+  dcProps:   (i) => `const DC${i} = defineComponent((props: { a: string }) => () => <div>{props.a}</div>);\n__out.k${i} = () => 1;`,
+  dcIface:   (i) => `interface PI${i} { a?: number; b: string }\nconst DO${i} = defineComponent((props: PI${i}) => () => null, { inheritAttrs: false });\n__out.k${i} = () => 1;`,
+  dcIdentOpts: (i) => `const uo${i} = { inheritAttrs: false };\nconst DI${i} = defineComponent((props: { a: string }) => null, uo${i});\n__out.k${i} = () => 1;`,
+  dcEmits:   (i) => `const DE${i} = defineComponent((props: { a: string }, ctx: SetupContext<{ (e: 'x'): void }>) => () => <i />);\n__out.k${i} = () => 1;`,
+  dcDefault: (i) => `const DD${i} = defineComponent((props: { a?: string } = { a: 'z' }) => null);\n__out.k${i} = () => 1;`,
+  localDc:   (i) => `function ldc${i}() { const defineComponent = (s: any, o?: any) => [s, o]; const Loc = defineComponent((props: { a: string }) => null); return Loc; }\n__out.k${i} = () => ldc${i}().length;`,
+  tsDecl:    (i) => `type TA${i} = { x: number };\ninterface TI${i} { y: string }\n__out.k${i} = () => 1;`,
+  asExpr:    (i) => `const ae${i} = (x as any) satisfies unknown;\n__out.k${i} = () => ae${i};`,
+  typedArrow:(i) => `const ta${i} = (p: number): any => <Comp>{f()}</Comp>;\n__out.k${i} = () => ta${i}(1);`,
+  genericArrow: (i) => `const ga${i} = <Q,>(p: Q): any => <Comp>{xx}</Comp>;\n__out.k${i} = () => ga${i}(1);`,
+  asyncTyped:(i) => `const at${i} = async (p?: number): Promise<any> => <Comp>{f()}</Comp>;\n__out.k${i} = () => typeof at${i}().then;`,
+  callDc:    (i) => `defineComponent((props: { q: boolean }) => () => null);\n__out.k${i} = () => 1;`,
+  exportDc:  (i) => `export const ED${i} = defineComponent((props: { a: string }) => null, { name: 'Own' });\n__out.k${i} = () => 1;`,
+};
+const TS_PRELUDE = "import { defineComponent, SetupContext } from 'vue';\n";
+
 function itemSrc(item, i) {
+  if (item.t) return T[item.t](i);
   if (item.d) return D[item.d].tpl(i);
   return K[item.k](i, L[item.l].J);
 }
-function itemKey(item) { return item.d ? 'D:' + item.d : `${item.k}∘${item.l}`; }
-function itemHasJsx(item) { return item.d ? !!D[item.d].jsx : true; }
+function itemKey(item) { return item.t ? 'T:' + item.t : item.d ? 'D:' + item.d : `${item.k}∘${item.l}`; }
+const T_JSX = new Set(['dcProps', 'dcEmits', 'typedArrow', 'genericArrow', 'asyncTyped']);
+const T_DC = new Set(['dcProps', 'dcIface', 'dcIdentOpts', 'dcEmits', 'dcDefault', 'callDc', 'exportDc']);
+function itemHasJsx(item) { return item.t ? T_JSX.has(item.t) : item.d ? !!D[item.d].jsx : true; }
+function itemAugmentable(item) { return !!item.t && T_DC.has(item.t); }
 
 const PRELUDE = 'const { Comp, B, s1, h1, c1, x, y, c, f, g } = __env.bound;\nlet xx = __env.bound.xx;\nlet yy = __env.bound.yy;\nlet mv = __env.mv0;\n';
 
-function renderHistory(items) {
-  return PRELUDE + items.map((it, i) => itemSrc(it, i)).join('\n') + '\n';
+function renderHistory(items, ts) {
+  return (ts ? TS_PRELUDE : '') + PRELUDE + items.map((it, i) => itemSrc(it, i)).join('\n') + '\n';
 }
 function renderAlone(item) { return PRELUDE + itemSrc(item, 0) + '\n'; }
 
@@ -100,7 +126,9 @@ function makeEnv() {
     x: 'xval', y: 'yval', xx: vn('xxnode'), yy: 'yyval', c: true,
     f: names.reg(() => vn('fres'), 'f'), g: names.reg(() => 'gres', 'g'),
   };
-  return { bound, names, mv0: 'mv0', globals: {} };
+  // stub for a configured pragma (`hh`): same observable record as createVNode
+  const hh = (type, props, children) => ({ __v_isVNode: true, type, props: props || null, children: children === undefined ? null : children, dirs: null });
+  return { bound, names, mv0: 'mv0', globals: { hh } };
 }
 
 // loads the module and activates observation point(s); returns {load?, values: [per item: [v1, v2]]}
@@ -125,4 +153,4 @@ function observe(evalJs, n, only) {
   });
 }
 
-module.exports = { L, K, D, itemSrc, itemKey, itemHasJsx, renderHistory, renderAlone, observe, PRELUDE, makeEnv };
+module.exports = { itemAugmentable, T, TS_PRELUDE, L, K, D, itemSrc, itemKey, itemHasJsx, renderHistory, renderAlone, observe, PRELUDE, makeEnv };
